@@ -13,9 +13,7 @@ func recordNext(m *Model, arg int) Op {
 	op := Op{K: "next", Arg: arg, Choosing: choosing}
 	if !wasFaulted {
 		op.Exp = &r
-		if !m.faulted {
-			op.ExpStore = canonStore(m.store)
-		}
+		op.ExpStore = canonStore(m.store)
 	}
 	if r.Kind == rWaiting && m.asyncImmediate {
 		op.MayComplete = true
@@ -205,4 +203,164 @@ func shapeOf(p *Program) progShape {
 		walk(n.Body, 0)
 	}
 	return sh
+}
+
+// ---------- tape-driven host schedules ----------
+
+type DriveCfg struct {
+	MaxOps   int
+	WritePct int // chance of a host-side write before a step
+	OtherPct int // of those writes: chance the value has another type than the variable (fault)
+	ClearPct int // of those writes: chance the host clears the store instead (fault)
+	BadStr   int // of those writes: chance of a string full of markup metacharacters (fault)
+	Vars     [3][]string
+	AfterEnd int // extra polls after the end
+}
+
+func epsFor(secs float64) int64 {
+	// dyadic values with few fractional bits are exact in float64 and in nanoseconds
+	if secs*8 == float64(int64(secs*8)) {
+		return 1
+	}
+	return 1000
+}
+
+func hostWriteOp(tp *Tape, m *Model, cfg *DriveCfg, st *Stats) Op {
+	if tp.Chance(cfg.ClearPct, "hostclear") {
+		m.Clear()
+		if st != nil {
+			st.fault("host_clear")
+		}
+		return Op{K: "clear", ExpStore: canonStore(m.store)}
+	}
+	kinds := []byte{'n', 'b', 's'}
+	var names []string
+	var types []byte
+	for k := 0; k < 3; k++ {
+		for _, v := range cfg.Vars[k] {
+			names = append(names, v)
+			types = append(types, kinds[k])
+		}
+	}
+	names = append(names, "h0")
+	types = append(types, kinds[tp.Int(0, 2, "h0type")])
+	i := tp.Int(0, len(names)-1, "hostvar")
+	ty := types[i]
+	if cur, ok := m.store[names[i]]; ok {
+		ty = cur.K
+	}
+	fault := "host_write"
+	if tp.Chance(cfg.OtherPct, "othertype") {
+		ty = kinds[(indexOf(kinds, ty)+1+tp.Int(0, 1, "which"))%3]
+		fault = "host_write_other_type"
+	}
+	var v Val
+	switch ty {
+	case 'n':
+		v = numV([]float64{0, 1, 7, -2, 2.5, 42}[tp.Int(0, 5, "hostnum")])
+	case 'b':
+		v = boolV(tp.Bool("hostbool"))
+	default:
+		v = strV([]string{"host", "", "h w", "Zed"}[tp.Int(0, 3, "hoststr")])
+		if tp.Chance(cfg.BadStr, "badstr") {
+			v = strV([]string{"[b]x", "a]b", "\\", "[", "é\xff", "[a=1 /]", "[/]", "\\[x"}[tp.Int(0, 7, "badstrval")])
+			fault = "host_string_markup"
+		}
+	}
+	m.Write(names[i], v)
+	if st != nil {
+		st.fault(fault)
+	}
+	vv := v
+	return Op{K: "write", Var: names[i], Val: &vv, ExpStore: canonStore(m.store)}
+}
+
+func indexOf(a []byte, b byte) int {
+	for i := range a {
+		if a[i] == b {
+			return i
+		}
+	}
+	return 0
+}
+
+// driveTape builds a host schedule from the tape, acting only on the host's view of the model.
+func driveTape(tp *Tape, m *Model, cfg *DriveCfg, st *Stats) (ops []Op, choices []int) {
+	polls := 0
+	after := 0
+	poll := func(note string) {
+		op := recordNext(m, junkArgs[tp.Int(0, len(junkArgs)-1, "junk")])
+		op.Note = note
+		ops = append(ops, op)
+	}
+	advance := func(ns int64) {
+		if ns <= 0 {
+			return
+		}
+		m.Advance(ns)
+		ops = append(ops, Op{K: "advance", Ns: ns})
+	}
+	for len(ops) < cfg.MaxOps {
+		if m.faulted || m.discard != "" {
+			break
+		}
+		if cfg.WritePct > 0 && tp.Chance(cfg.WritePct, "hostwrite") {
+			ops = append(ops, hostWriteOp(tp, m, cfg, st))
+		}
+		switch m.HostState() {
+		case "PENDING":
+			inv := m.pending
+			if inv.IsWait {
+				remaining := inv.Deadline - m.now
+				eps := epsFor(inv.WaitSecs)
+				if remaining > 4*eps && tp.Chance(40, "earlypoll") {
+					d := remaining / 4 * int64(tp.Int(1, 3, "frac"))
+					advance(d)
+					poll("poll")
+					continue
+				}
+				if remaining > eps {
+					advance(remaining - eps)
+					poll("poll")
+				}
+				advance(2 * eps)
+				if st != nil {
+					st.fault("wait_boundary_poll")
+				}
+				continue
+			}
+			if polls < inv.Sched.Polls {
+				polls++
+				if tp.Chance(15, "advbetween") {
+					advance(int64(tp.Int(1, 5000, "advms")) * 1e6)
+				}
+				poll("poll")
+				if st != nil {
+					st.fault("completion_delayed_poll")
+				}
+				continue
+			}
+			polls = 0
+			m.Release(inv.Sched.Err)
+			ops = append(ops, Op{K: "release", Inv: inv.Index, Err: inv.Sched.Err})
+			if st != nil && inv.Sched.Err {
+				st.fault("command_completes_with_error")
+			}
+			continue
+		case "CHOOSING":
+			c := tp.Int(0, len(m.choosing.Options)-1, "choice")
+			choices = append(choices, c)
+			ops = append(ops, recordNext(m, c))
+		default:
+			ops = append(ops, recordNext(m, junkArgs[tp.Int(0, len(junkArgs)-1, "junk")]))
+		}
+		last := ops[len(ops)-1]
+		if last.Exp != nil && last.Exp.Kind == rEnd {
+			if after >= cfg.AfterEnd {
+				break
+			}
+			after++
+		}
+	}
+	return ops, choices
 }
